@@ -654,7 +654,9 @@ func (h *Sources) getLine(line *core.Line, cur *core.Cursor) (*core.Line, *core.
 			return line, cur
 		}
 
-		lh := hist[0]
+		// The changes of the input line are kept under position -1
+		// (position 0 is the oldest line of the history source).
+		lh := hist[-1]
 		if lh == nil || len(lh.items) == 0 {
 			return line, cur
 		}
